@@ -121,6 +121,9 @@ type Op struct {
 	Tear bool `json:"tear,omitempty"`
 	// stop: the new instance starts on empty stores (differential probing: both instances begin cold)
 	Wipe bool `json:"wipe,omitempty"`
+	// crash / stop: the store cannot be opened by the new instance (directory lock held by an
+	// orphan, damaged directory): pike must start and serve without persistence
+	NoStore bool `json:"no_store,omitempty"`
 	// free annotation used by oracles (e.g. "probe")
 	Tag string `json:"tag,omitempty"`
 }
